@@ -51,56 +51,56 @@ theorem site_then_inv {α β : Type} [DecidableEq α] (y g : Res α) (c : Lax) (
 variable (T : TcFacts)
 
 mutual
-  theorem domE_inv : ∀ (e : Expr) (env : Env) (z : Option Ty),
-      Inv (domE T env z e) (checkE (rulesY T) env z e) (checkE rulesG env z e)
-    | .var i, env, z => by
+  theorem domE_inv : ∀ (e : Expr) (env : Env) (z : Option Ty) (cv : Bool),
+      Inv (domE T env z cv e) (checkE (rulesY T) env z cv e) (checkE rulesG env z cv e)
+    | .var i, env, z, cv => by
       unfold domE checkE
       cases env.vars[i]? with
       | some t => exact ok_inv _
       | none => exact stop_err_inv
-    | .lit u v f, env, z => by unfold domE checkE; exact ok_inv _
-    | .nil, env, z => by unfold domE checkE; exact ok_inv _
-    | .un op e, env, z => by
+    | .lit u v f, env, z, cv => by unfold domE checkE; exact ok_inv _
+    | .nil, env, z, cv => by unfold domE checkE; exact ok_inv _
+    | .un op e, env, z, cv => by
       unfold domE checkE
-      exact bind_inv _ _ _ _ _ _ (domE_inv e env _) (fun x => site_inv _ _ _)
-    | .recv e, env, z => by
+      exact bind_inv _ _ _ _ _ _ (domE_inv e env _ _) (fun x => site_inv _ _ _)
+    | .recv e, env, z, cv => by
       unfold domE checkE
-      exact bind_inv _ _ _ _ _ _ (domE_inv e env _) (fun x => site_inv _ _ _)
-    | .bin op a b, env, z => by
+      exact bind_inv _ _ _ _ _ _ (domE_inv e env _ _) (fun x => site_inv _ _ _)
+    | .bin op a b, env, z, cv => by
       unfold domE checkE
-      exact bind_inv _ _ _ _ _ _ (domE_inv a env _) (fun x =>
-        bind_inv _ _ _ _ _ _ (domE_inv b env _) (fun y => site_inv _ _ _))
-    | .cmp op a b, env, z => by
+      exact bind_inv _ _ _ _ _ _ (domE_inv a env _ _) (fun x =>
+        bind_inv _ _ _ _ _ _ (domE_inv b env _ _) (fun y => site_inv _ _ _))
+    | .cmp op a b, env, z, cv => by
       unfold domE checkE
-      exact bind_inv _ _ _ _ _ _ (domE_inv a env _) (fun x =>
-        bind_inv _ _ _ _ _ _ (domE_inv b env _) (fun y => site_inv _ _ _))
-    | .shift op a b, env, z => by
+      exact bind_inv _ _ _ _ _ _ (domE_inv a env _ _) (fun x =>
+        bind_inv _ _ _ _ _ _ (domE_inv b env _ _) (fun y => site_inv _ _ _))
+    | .shift op a b, env, z, cv => by
       unfold domE checkE
-      exact bind_inv _ _ _ _ _ _ (domE_inv a env _) (fun x =>
-        bind_inv _ _ _ _ _ _ (domE_inv b env _) (fun y => site_inv _ _ _))
-    | .call f args, env, z => by
+      exact bind_inv _ _ _ _ _ _ (domE_inv a env _ _) (fun x =>
+        bind_inv _ _ _ _ _ _ (domE_inv b env _ _) (fun y => site_inv _ _ _))
+    | .call f args, env, z, cv => by
       unfold domE checkE
       cases env.funcs[f]? with
       | none => exact stop_err_inv
       | some sg =>
         exact bind_inv _ _ _ _ _ _ (domArgs_inv args env) (fun xs =>
           bind_inv _ _ _ _ _ _ (site_inv _ _ _) (fun _ => site_inv _ _ _))
-    | .conv t e, env, z => by
+    | .conv t e, env, z, cv => by
       unfold domE checkE
-      exact bind_inv _ _ _ _ _ _ (domE_inv e env _) (fun x => site_inv _ _ _)
-    | .assert t e, env, z => by
+      exact bind_inv _ _ _ _ _ _ (domE_inv e env _ _) (fun x => site_inv _ _ _)
+    | .assert t e, env, z, cv => by
       unfold domE checkE
-      exact bind_inv _ _ _ _ _ _ (domE_inv e env _) (fun x => site_inv _ _ _)
-    | .index a i, env, z => by
+      exact bind_inv _ _ _ _ _ _ (domE_inv e env _ _) (fun x => site_inv _ _ _)
+    | .index a i, env, z, cv => by
       unfold domE checkE
-      exact bind_inv _ _ _ _ _ _ (domE_inv a env _) (fun x =>
-        bind_inv _ _ _ _ _ _ (domE_inv i env _) (fun y => site_inv _ _ _))
+      exact bind_inv _ _ _ _ _ _ (domE_inv a env _ _) (fun x =>
+        bind_inv _ _ _ _ _ _ (domE_inv i env _ _) (fun y => site_inv _ _ _))
   theorem domArgs_inv : ∀ (as : Args) (env : Env),
       Inv (domArgs T env as) (checkArgs (rulesY T) env as) (checkArgs rulesG env as)
     | .nil, env => by unfold domArgs checkArgs; exact ok_inv _
     | .cons e rest, env => by
       unfold domArgs checkArgs
-      exact bind_inv _ _ _ _ _ _ (domE_inv e env _) (fun x =>
+      exact bind_inv _ _ _ _ _ _ (domE_inv e env _ _) (fun x =>
         bind_inv _ _ _ _ _ _ (domArgs_inv rest env) (fun xs => ok_inv _))
 end
 
@@ -109,37 +109,37 @@ mutual
       Inv (domS T env s) (checkS (rulesY T) env s) (checkS rulesG env s)
     | .decl t e, env => by
       unfold domS checkS
-      exact bind_inv _ _ _ _ _ _ (domE_inv T e env _) (fun x =>
+      exact bind_inv _ _ _ _ _ _ (domE_inv T e env _ _) (fun x =>
         bind_inv _ _ _ _ _ _ (site_inv _ _ _) (fun t' => ok_inv _))
     | .declz t, env => by unfold domS checkS; exact ok_inv _
     | .define e, env => by
       unfold domS checkS
-      exact bind_inv _ _ _ _ _ _ (domE_inv T e env _) (fun x =>
+      exact bind_inv _ _ _ _ _ _ (domE_inv T e env _ _) (fun x =>
         bind_inv _ _ _ _ _ _ (site_inv _ _ _) (fun _ => ok_inv _))
     | .defineOk t e, env => by
       unfold domS checkS
-      exact bind_inv _ _ _ _ _ _ (domE_inv T e env _) (fun x =>
+      exact bind_inv _ _ _ _ _ _ (domE_inv T e env _ _) (fun x =>
         bind_inv _ _ _ _ _ _ (site_inv _ _ _) (fun _ => ok_inv _))
     | .assign i e, env => by
       unfold domS checkS
       cases env.vars[i]? with
       | none => exact stop_err_inv
       | some t =>
-        exact bind_inv _ _ _ _ _ _ (domE_inv T e env _) (fun x =>
+        exact bind_inv _ _ _ _ _ _ (domE_inv T e env _ _) (fun x =>
           bind_inv _ _ _ _ _ _ (site_inv _ _ _) (fun _ => ok_inv _))
     | .opassign op i e, env => by
       unfold domS checkS
       cases env.vars[i]? with
       | none => exact stop_err_inv
       | some t =>
-        exact bind_inv _ _ _ _ _ _ (domE_inv T e env _) (fun x =>
+        exact bind_inv _ _ _ _ _ _ (domE_inv T e env _ _) (fun x =>
           bind_inv _ _ _ _ _ _ (site_inv _ _ _) (fun _ => ok_inv _))
     | .shassign op i e, env => by
       unfold domS checkS
       cases env.vars[i]? with
       | none => exact stop_err_inv
       | some t =>
-        exact bind_inv _ _ _ _ _ _ (domE_inv T e env _) (fun x =>
+        exact bind_inv _ _ _ _ _ _ (domE_inv T e env _ _) (fun x =>
           bind_inv _ _ _ _ _ _ (site_inv _ _ _) (fun _ => ok_inv _))
     | .incdec i, env => by
       unfold domS checkS
@@ -148,8 +148,8 @@ mutual
       | some t => exact bind_inv _ _ _ _ _ _ (site_inv _ _ _) (fun _ => ok_inv _)
     | .send c e, env => by
       unfold domS checkS
-      exact bind_inv _ _ _ _ _ _ (domE_inv T c env _) (fun x =>
-        bind_inv _ _ _ _ _ _ (domE_inv T e env _) (fun y =>
+      exact bind_inv _ _ _ _ _ _ (domE_inv T c env _ _) (fun x =>
+        bind_inv _ _ _ _ _ _ (domE_inv T e env _ _) (fun y =>
           bind_inv _ _ _ _ _ _ (site_inv _ _ _) (fun _ => ok_inv _)))
     | .callS f args, env => by
       unfold domS checkS
@@ -160,13 +160,13 @@ mutual
           bind_inv _ _ _ _ _ _ (site_inv _ _ _) (fun _ => ok_inv _))
     | .ifS c t e, env => by
       unfold domS checkS
-      exact bind_inv _ _ _ _ _ _ (domE_inv T c env _) (fun x =>
+      exact bind_inv _ _ _ _ _ _ (domE_inv T c env _ _) (fun x =>
         bind_inv _ _ _ _ _ _ (domB_inv t env) (fun _ =>
           bind_inv _ _ _ _ _ _ (domB_inv e env) (fun _ =>
             bind_inv _ _ _ _ _ _ (site_inv _ _ _) (fun _ => ok_inv _))))
     | .forS c b, env => by
       unfold domS checkS
-      exact bind_inv _ _ _ _ _ _ (domE_inv T c env _) (fun x =>
+      exact bind_inv _ _ _ _ _ _ (domE_inv T c env _ _) (fun x =>
         bind_inv _ _ _ _ _ _ (domB_inv b env) (fun _ =>
           bind_inv _ _ _ _ _ _ (site_inv _ _ _) (fun _ => ok_inv _)))
     | .ret es, env => by
